@@ -40,7 +40,7 @@ def plan(tier):
 
 @st.composite
 def cases(draw):
-    recipe = draw(gen.problem_recipe(densities=(10, 10, 10, 6, 12), styles=True, offsets=True))
+    recipe = draw(gen.problem_recipe(densities=(10, 10, 10, 6, 12), styles=True, offsets=True, huge=True))
     iters = st.one_of(st.sampled_from([1, 2, 3, 4, 5, 10]), st.sampled_from([200, 1000, 2000]),
                       st.sampled_from([200, 1000, 2000]), st.integers(3, 300))
     params = draw(gen.solver_params(recipe["n"], recipe["density"], iters, cheap=False))
@@ -108,7 +108,8 @@ def body(case):
     p = case["params"]
     eps, limit, r = p["eps"], p["itersLimit"], p["r"]
     run = Run(case["recipe"], p)
-    run.line_guard = eps < 1e-12      # termination without evaluations is decided by an executed-line bound
+    # termination without evaluations is decided by an executed-line bound
+    run.line_guard = eps < 1e-12 or bool(case["recipe"].get("huge"))
     run.problem.max_calls = limit + 3
     pre = 0
     try:
@@ -160,10 +161,21 @@ def body(case):
     model, info = replay_history(run.n, r, hist, check_rule=False)
     errored = "Exception was thrown" in run.stdout()
     classes = ["N=%d" % run.n]
+    if case["recipe"].get("huge"):
+        classes.append("values-of-magnitude-1e150-and-more")
     if errored:
         if not model.next_is_degenerate():
             fail("Solve swallowed an internal exception after %d trials (itersLimit=%d, eps=%r)" % (n, limit, eps))
         classes.append("float-resolution-stop")
+        # the method refused an interval it can no longer subdivide: nothing was subdivided by that, so the reported
+        # accuracy is still the smallest Hoelder length among the intervals the completed trials subdivided
+        D = [i["D"] for i in info[1:]]
+        acc = min(D) if D else math.inf
+        rep = float(sol.solutionAccuracy)
+        if not (rep == acc or (math.isfinite(acc) and abs(rep - acc) <= 4 * math.ulp(acc))):
+            fail("the search stopped at the float resolution of the curve coordinate after %d trials: reported "
+                 "accuracy %r differs from the smallest subdivided Hoelder length %r (it is the length of an interval "
+                 "that was chosen but never subdivided)" % (n, rep, acc))
         return False, classes
     D = [i["D"] for i in info[1:]]          # D[j] belongs to trial j+2
     # trials 1..pre were requested explicitly (DoGlobalIteration does not consult the stop rule); every trial
